@@ -1,5 +1,5 @@
 """The standard check flow: Lean obligations + correspondence (harness vs driver) + monitors + verdict."""
-import json, os, shutil, sys, time
+import json, os, re, shutil, sys, time
 from concurrent.futures import ThreadPoolExecutor
 
 from . import common as C
@@ -86,6 +86,11 @@ def one_run(spec, hbin, outdir, seed, tier, mode="gen", ops=None, shard="0/1", e
     if cover_wanted(spec, tier, shard, mode, extra_env):
         extra_env["VERIF_COVER"] = os.path.join(outdir, "cover.json")
     rc, out = C.run_harness(hbin, outdir, seed, tier, mode=mode, ops=ops, shard=shard, extra_env=extra_env)
+    if rc != 0 and not re.search(r"FAIL|panic|--- |exit status", out or ""):
+        # the harness process ended without a word (killed: out of memory under a cgroup limit, a signal): that says nothing about
+        # the code under test; the shard is run once more (its generation is deterministic) and only that run is judged
+        time.sleep(10)
+        rc, out = C.run_harness(hbin, outdir, seed, tier, mode=mode, ops=ops, shard=shard, extra_env=extra_env)
     res = dict(rc=rc, out=out, outdir=outdir, monitor=C.load_monitor(outdir), stats=C.load_stats(outdir),
                lines=0, diffs=[], branches={}, bad_cases=0, crashed=rc != 0, seed=seed)
     if spec.get("driver") and os.path.exists(os.path.join(outdir, "ops.txt")):
